@@ -335,6 +335,13 @@ def make_model_image(shape, model, params_table, *, model_shape=None,
         except NoOverlapError:
             continue
 
+    if not isinstance(image, u.Quantity) and len(params_table) > 0:
+        # no source overlapped the image; the (zero) image still
+        # carries the units of the model output
+        value = model(x0, y0)
+        if isinstance(value, u.Quantity):
+            image <<= value.unit
+
     return image
 
 
